@@ -248,7 +248,7 @@ Proof.
   match goal with |- context [for_range ?rn ?n0 ?l0 ?k0] =>
     destruct (notify_loop_sim c (nev s) rn) with (n := n0) (s := with_nlog s (nlog s ++ [nev s])) (k := k0) (l := l0)
       as (l' & k' & Hex & Hs & Hf) end.
-  - intros l k. cbn. destruct (k_cw k); eexists; reflexivity.
+  - intros l k. cbn. destruct (k_cw k) eqn:Ek; cbn; rewrite ?Ek; cbn; eexists; reflexivity.
   - apply (sim_ghost s); try reflexivity. apply sim_vis.
   - cbn [l_n loc_entry touch] in *. rewrite Hex. cbn [fst snd].
     refine (conj _ (conj eq_refl (conj _ _))).
